@@ -364,6 +364,15 @@ func (m *mon) attacks(tp template, url string) []attack {
 					Metadata: valsettypes.MsgMetadata{Creator: m.puppet.Bech, Signers: []string{X.Bech}}}
 				out = append(out, attack{name: "foreign-signer-behind-delegated-message-by-" + who, signer: X, msg: clone(c, a1), pre: []sdk.Msg{decoy}})
 			}
+			// a forged message that lists NO signers at all (creator B) needs no signature of its own; it travels behind a
+			// message A sends in its own name, which supplies the signature the transaction needs
+			{
+				own := &palomatypes.MsgAddStatusUpdate{Status: "own", Level: palomatypes.MsgAddStatusUpdate_LEVEL_INFO,
+					Metadata: valsettypes.MsgMetadata{Creator: X.Bech, Signers: []string{X.Bech}}}
+				if as := clone(c, tp.msg); setMetaMany(as, tp.owner.Bech, nil) {
+					out = append(out, attack{name: "foreign-creator-without-signers-behind-own-message-by-" + who, signer: X, msg: as, pre: []sdk.Msg{own}})
+				}
+			}
 			// ... and behind a message A sends in its OWN name (creator A, signer A)
 			if tp.kind != "gov" {
 				own := &palomatypes.MsgAddStatusUpdate{Status: "own", Level: palomatypes.MsgAddStatusUpdate_LEVEL_INFO,
